@@ -311,8 +311,8 @@ def _set(key, form, via, base):
 
 
 def _iset(key, idx, form, base, scale=False, via='prop'):
-    return {'op': 'iset', 'name': 'iset-%s-%s-%s%s' % (key, idx, form, '-scaled' if scale else ''), 'key': key, 'idx': idx,
-            'form': form, 'base': base, 'scale': scale, 'via': via}
+    return {'op': 'iset', 'name': 'iset-%s-%s-%s%s%s' % (key, idx, form, '-scaled' if scale else '', ('-' + via) if via.startswith('a_id') else ''),
+            'key': key, 'idx': idx, 'form': form, 'base': base, 'scale': scale, 'via': via}
 
 
 def static_ops():
@@ -331,6 +331,9 @@ def static_ops():
         o.append(_iset('a', idx, 'rows', 60 + 2 * i))
     for idx in ('i0', 'im2', 'li', 'bm'):
         o.append(_iset('v', idx, 'rows', 70))
+    # one atom addressed by the documented a_id= keyword instead of index= (atom 0: a falsy id; the last atom; -2)
+    o += [_iset('a', 'i0', 'rows', 90, via='a_id'), _iset('v', 'im1', 'rows', 91, via='a_id'), _iset('k', 'im2', 'rows', 92, via='a_id'),
+          _iset('pos', 'i0', 'rows', 2, via='a_id_atoms_prop')]
     o += [_iset('k', 'im1', 'rows', 80), _iset('k', 'sl', 'scalar', 81),
           _iset('atype', 'i0', 'rows', 3), _iset('atype', 'li', 'scalar', 2),
           _iset('pos', 'im1', 'rows', 0, scale=True, via='atoms_prop'), _iset('pos', 'li', 'rows', 1, scale=True, via='atoms_prop'),
@@ -551,6 +554,12 @@ def apply(st, op):
                 S.atoms_prop(key, value=value, scale=op['scale'])
             else:
                 S.atoms_prop(key, index=index, value=value, scale=op['scale'])
+        elif op['via'] == 'a_id':
+            assert kind == 'int'
+            A.prop(key, a_id=index, value=value)
+        elif op['via'] == 'a_id_atoms_prop':
+            assert kind == 'int'
+            S.atoms_prop(key, a_id=index, value=value)
         else:
             A.prop(key, index, value)
         M.write_rows(key, rownums, vals)
